@@ -135,6 +135,7 @@ def tlc(module, cfg=None, workers=4, simulate=None, depth=None, seed=None, env=N
             os.remove(cfg_path)
         except OSError:
             pass
+    _raw_cases = []
     for line in p.stdout.splitlines():
         m = _case_re.match(line)
         if m:
@@ -147,6 +148,7 @@ def tlc(module, cfg=None, workers=4, simulate=None, depth=None, seed=None, env=N
                     v = m.group(2)
             if m.group(1) == "CASE":
                 r.cases.append(v)
+                _raw_cases.append(m.group(2))
             else:
                 r.prints.append((m.group(1), v))
             continue
@@ -163,6 +165,11 @@ def tlc(module, cfg=None, workers=4, simulate=None, depth=None, seed=None, env=N
         if "is violated" in line or "Error: " in line and r.violated is None:
             if "is violated" in line or "Error:" in line:
                 r.violated = (r.violated or "") + line + "\n"
+    # TLC's workers print in no fixed order: cases are handed on in a canonical order, so that seeded sampling further down
+    # picks the same cases on every run
+    if len(_raw_cases) == len(r.cases) and r.cases:
+        order = sorted(range(len(_raw_cases)), key=_raw_cases.__getitem__)
+        r.cases = [r.cases[i] for i in order]
     if r.rc == 124:
         raise ToolError("TLC timed out on %s" % module)
     if r.rc != 0 and not quiet_fail:
